@@ -151,6 +151,8 @@ impl FileDesc {
                     }
                     // The Raptor encoder is not fully specified for 2 or 3 source symbols
                     oti::FECEncodingID::Raptor => k != 2 && k != 3,
+                    // The No-Code FEC Payload ID numbers the symbols of a block with 16 bits
+                    oti::FECEncodingID::NoCode => k <= u16::MAX as u64 + 1,
                     _ => true,
                 };
                 if !is_encodable {
